@@ -8,6 +8,7 @@
 //	fs drive [-stats <file>] [-nohash]   op lines on stdin -> one result line per op on stdout, real code of /repo
 //	fs gen <n> [<shard> <nshards>]       n random C01 histories (this shard's share), seeded from VERIF_SEED
 //	fs genx <maxlen> [<shard> <nshards>] exhaustive small-scope histories (see fsdrv/genx.go)
+//	fs gennest <maxseg> [<shard> <nshards>]  exhaustive nested-view spellings (see fsdrv/nest.go)
 //	fs oracle <n> [<shard> <nshards>]    property oracle: real code against the flat reference, no Lean model
 //	fs refcheck                          the same comparison on the op lines given on stdin (used on minimised replays)
 package main
@@ -27,7 +28,7 @@ func main() {
 	ew := bufio.NewWriter(os.Stderr)
 	defer ew.Flush()
 	if len(os.Args) < 2 {
-		fmt.Fprintln(os.Stderr, "usage: fs drive [-stats file] [-nohash] | gen <n> [shard nshards] | genx <maxlen> [shard nshards] | oracle <n> [shard nshards] | refcheck")
+		fmt.Fprintln(os.Stderr, "usage: fs drive [-stats file] [-nohash] | gen <n> [shard nshards] | genx <maxlen> [shard nshards] | gennest <maxseg> [shard nshards] | oracle <n> [shard nshards] | refcheck")
 		os.Exit(2)
 	}
 	num := func() int {
@@ -49,6 +50,10 @@ func main() {
 		n := num()
 		s, ns := fsdrv.ShardArgs(os.Args[3:])
 		fsdrv.GenExhaustive(w, ew, n, s, ns)
+	case "gennest":
+		n := num()
+		s, ns := fsdrv.ShardArgs(os.Args[3:])
+		fsdrv.GenNestExhaustive(w, ew, n, s, ns)
 	case "oracle":
 		n := num()
 		s, ns := fsdrv.ShardArgs(os.Args[3:])
